@@ -201,10 +201,10 @@ func cmdCheck(args []string) int {
 	}
 	// scripts are printed sequentially (the term pool is not concurrent), solved in parallel
 	type prepared struct {
-		job    oblJob
-		script string
-		size   int
-		path   string
+		job     oblJob
+		scripts []string
+		grounds []string
+		paths   []string
 	}
 	var preps []prepared
 	for i, j := range jobs {
@@ -213,9 +213,24 @@ func cmdCheck(args []string) int {
 			j.o.Output = j.o.Taint
 			continue
 		}
-		sc, sz := obligationScript(j.fr, j.o, nil)
-		p := filepath.Join(workDir, fmt.Sprintf("%04d_%s.smt2", i, fileSafe(j.o.Name)))
-		preps = append(preps, prepared{j, sc, sz, p})
+		p := prepared{job: j}
+		parts := []*Term{j.o.Goal}
+		if !j.expectSat {
+			parts = splitGoal(j.o.Goal)
+		}
+		for k, g := range parts {
+			sub := *j.o
+			sub.Goal = g
+			sc, _ := obligationScript(j.fr, &sub, nil)
+			p.scripts = append(p.scripts, sc)
+			gs := ""
+			if !j.expectSat {
+				gs = groundScript(j.fr, &sub)
+			}
+			p.grounds = append(p.grounds, gs)
+			p.paths = append(p.paths, filepath.Join(workDir, fmt.Sprintf("%04d_%s.%d.smt2", i, fileSafe(j.o.Name), k)))
+		}
+		preps = append(preps, p)
 	}
 	var wg sync.WaitGroup
 	sem := make(chan struct{}, 6)
@@ -231,25 +246,30 @@ func cmdCheck(args []string) int {
 			if p.job.expectSat {
 				to = 10
 			}
-			r := runSolvers(p.script, p.path, to, *tier == "thorough" && !p.job.expectSat, seed)
 			o := p.job.o
-			o.Backend, o.Seconds, o.Output = r.Backend, r.Seconds, r.Output
-			switch r.Status {
-			case "unsat":
-				o.Status = "proved"
-			case "sat":
-				o.Status = "failed"
-			default:
-				o.Status = "unknown"
-			}
-			if r.Status == "disagree" {
-				o.Status = "unknown"
-			}
-			mu.Lock()
-			solverSeconds += r.Seconds
-			mu.Unlock()
-			if o.Status == "proved" && !*keep {
-				os.Remove(p.path)
+			o.Status = "proved"
+			for k := range p.scripts {
+				r := runSolvers2(p.scripts[k], p.grounds[k], p.paths[k], to, *tier == "thorough" && !p.job.expectSat, seed)
+				o.Seconds += r.Seconds
+				if r.Backend != "" {
+					o.Backend = r.Backend
+				}
+				mu.Lock()
+				solverSeconds += r.Seconds
+				mu.Unlock()
+				if r.Status == "unsat" {
+					if !*keep {
+						os.Remove(p.paths[k])
+					}
+					continue
+				}
+				o.Output = fmt.Sprintf("conjunct %d/%d: %s %s", k+1, len(p.scripts), r.Status, r.Output)
+				if r.Status == "sat" {
+					o.Status = "failed"
+				} else {
+					o.Status = "unknown"
+				}
+				break
 			}
 		}(p)
 	}
@@ -328,6 +348,9 @@ func cmdCheck(args []string) int {
 				continue
 			}
 			total++
+			if *verbose && o.Seconds > 1.0 {
+				fmt.Printf("  slow: %-60s %6.2fs %s %s\n", o.Name, o.Seconds, o.Status, o.Backend)
+			}
 			if o.Status == "proved" {
 				discharged++
 				backends[o.Backend]++
